@@ -2482,7 +2482,7 @@ def expand_byte_calls(program, N, segs, depth=0):
             continue
         ret = N.norm(Terms(program, b).place(0, (), b.return_blocks()[0], "t"))
         inner = byte_segments(ret)
-        if inner == [ret]:
+        if inner == [ret] and (not isinstance(ret, tuple) or ret[:1] in (("gamma",), ("phi",)) or term_contains(ret, lambda y: isinstance(y, tuple) and len(y) == 2 and y[0] in ("cyclic", "opaque", "undef"))):
             out.append(s)
             continue
         sub = []
